@@ -1,3 +1,3 @@
 From Coq Require Import Extraction ExtrOcamlBasic.
 From Snoopy Require Import Lib.CStr Output.Model Output.Exec.
-Extraction "model_output.ml" Exec.predict Exec.sink_tag Exec.sink_name Byte.to_N Byte.of_N.
+Extraction "model_output.ml" Exec.predict Exec.predict_el Exec.sink_tag Exec.sink_name Byte.to_N Byte.of_N.
